@@ -35,7 +35,9 @@ class World:
                 # many functions: > 2 stdio buffers (4096) of output
                 parts = []
                 for i in range(400):
-                    parts.append(b.replace(b"main", b"main%d" % i).replace(b" f(", b" f%d(" % i))
+                    # blanks at the ends of the lines: the original is several buffers LONGER than its formatted text, so that
+                    # a file size limit exists that cuts the backup and lets the output through
+                    parts.append(b.replace(b"main", b"main%d" % i).replace(b" f(", b" f%d(" % i).replace(b"{\n", b"{" + b" " * 70 + b"\n"))
                 b = b"".join(parts)
             self.cont[n] = b
         for k in "AB":
@@ -215,12 +217,16 @@ def ro_open(e):
     return e["name"] in ("openat", "open") and not e["wr"]
 
 
-def traced_run(w, d, k, m, inject=None, timeout=30):
-    """inject: list of strace -e inject=... expressions.  Returns (exit class, rc, syscalls)."""
+def traced_run(w, d, k, m, inject=None, timeout=30, fsize=None):
+    """inject: list of strace -e inject=... expressions.  fsize: RLIMIT_FSIZE in bytes with SIGXFSZ ignored -
+    the kernel's own short write (the part below the limit is written, the next write fails with EFBIG),
+    set by prlimit/env, which exec the binary inside the traced process.  Returns (exit class, rc, syscalls)."""
     logp = os.path.join(d, "strace.log")
     cmd = ["strace", "-o", logp, "-e", TRACE]
     for i in inject or []:
         cmd += ["-e", "inject=" + i]
+    if fsize is not None:
+        cmd += ["prlimit", "--fsize=%d" % fsize, "env", "--ignore-signal=XFSZ"]
     cmd += run_cmd(w, k, m)
     prepare_spelling(d, m)
     rc, out, err = sh(cmd, timeout=timeout, cwd=d)
